@@ -41,10 +41,14 @@ def plan(tier, seed):
         if q % 2 == 0: files["legacy_py2_syntax.py"] = b64(b"import os\nprint 'py2 statement'\nx = set([1])\n")       # every codemod that selects it must list it as failed, in the batch as in the chain
         if q % 3 == 0: files["not_utf8.py"] = b64(b"import os\ns = '\xff\xfe'\n")
         files["crafted_literal_get.py"] = b64(b"import requests\nrequests.get('https://example.com')\n")
+        # the same triggers in directories that tools with ignore rules of their own skip when they walk a directory (vendor/, node_modules/): codemodder selects them like any other file
+        files["vendor/lib_client.py"] = b64(b"import requests\nrequests.get('https://example.com/v')\nrequests.get('u', verify=False)\n")
+        files["node_modules/pkg/tool.py"] = b64(b"import subprocess\ncmd = input()\nsubprocess.run(cmd, shell=True)\n")
         files["crafted_subprocess.py"] = b64(b"import subprocess\ncmd = input()\nsubprocess.run(cmd, shell=True)\n")
         base = ["{proj}", "--output", "{out}"]
-        jobs.append({"id": f"seq{q}|batch", "pair": q, "kind": "batch", "ks": ks, "files": files, "argv": base + ["--codemod-include", ",".join(ks)], "monitors": {"snap": False, "pipe": False}})
-        jobs.append({"id": f"seq{q}|chain", "pair": q, "kind": "chain", "ks": ks, "files": files, "argv": [], "steps": [base + ["--codemod-include", k] for k in ks], "monitors": {"snap": False, "pipe": False}})
+        tgt = ("abs", "rel", "dot")[q % 3]      # how the target is spelled, i.e. whether the project lies below the working directory of the run
+        jobs.append({"id": f"seq{q}|batch", "pair": q, "kind": "batch", "ks": ks, "files": files, "target": tgt, "argv": base + ["--codemod-include", ",".join(ks)], "monitors": {"snap": False, "pipe": False}})
+        jobs.append({"id": f"seq{q}|chain", "pair": q, "kind": "chain", "ks": ks, "files": files, "target": tgt, "argv": [], "steps": [base + ["--codemod-include", k] for k in ks], "monitors": {"snap": False, "pipe": False}})
     if tier != "quick":
         # the whole default set in one invocation vs one invocation per codemod in the same order, on a project holding seeds of every codemod
         from codemodder import registry as _reg
